@@ -9,7 +9,7 @@
 From Coq Require Import List NArith Bool String.
 From Verif Require Import Lib.Utf8 Jsonx.Lex Jsonx.Tok Jsonx.GoStr Jsonx.Num Jsonx.NumProofs
   Jsonx.Parse Jsonx.Json Jsonx.Encode Jsonx.Print Jsonx.PrintProofs Jsonx.Roundtrip
-  Jsonx.GenTypes Gen.JsonxConsts Gen.JsonxOwn Jsonx.Own Jsonx.ConstsGen.
+  Jsonx.GenTypes Gen.JsonxConsts Gen.JsonxOwn Jsonx.Own Jsonx.FileModel Jsonx.ConstsGen Jsonx.FileProofs.
 Import ListNotations.
 Local Open Scope N_scope.
 
@@ -157,6 +157,43 @@ Example C07_ownership_example :
   = [Some [3; 3]; Some [3; 3]; Some [3; 3]]%N.
 Proof. vm_compute. split; reflexivity. Qed.
 
+(** Files.  WriteFile replaces the whole content of the file (the way it
+    opens the file is read from the source on this run: os.WriteFile,
+    os.Create, or os.OpenFile with O_TRUNC).  After ANY history of WriteFile
+    calls, on any paths and over whatever was there before, the file at a
+    path holds exactly the last text written there ... *)
+Theorem C07_file_holds_last_write : forall h f p,
+  read_file (run_writes (wpolicy_of gen_writefile_opens) h f) p = last_write p h (f p).
+Proof. exact gen_file_last_write. Qed.
+Print Assumptions C07_file_holds_last_write.
+
+(** ... so ReadFile returns the LAST value written: after the calls [h1],
+    WriteFile(p, v), and any calls [h2] on other paths, the file at [p] is the
+    text Marshal prints for [v], Unmarshal (which is what ReadFile applies to
+    the file's bytes) accepts it and yields [v] - whatever longer or shorter
+    texts [h1] wrote to [p] before. *)
+Theorem C07_file_history_roundtrip :
+  forall (F : Type) (pf : list N -> option F) (ff : F -> list N) (is_print : N -> bool),
+  is_print 10 = false ->
+  (forall f, is_json_number (ff f) = true) -> (forall f r, ff f <> 45 :: r) ->
+  forall h1 p v h2 f,
+  wfpb v = true -> fokb pf v = true ->
+  forallb (fun pv : nat * pvalue => negb (Nat.eqb p (fst pv))) h2 = true ->
+  exists text out j',
+    read_file (run_values is_print (h1 ++ (p, v) :: h2) f) p = Some text /\
+    text = print_doc is_print v /\
+    unmarshal pf ff text = Ok (UOk out) /\
+    json_parse out = Some j' /\ jrel pf ff (jv v) j'.
+Proof. exact (fun F pf ff is_print H1 H2 H3 => file_history_roundtrip pf ff is_print H1 H2 H3). Qed.
+Print Assumptions C07_file_history_roundtrip.
+
+(** A write that does not truncate keeps the tail of a longer old content. *)
+Theorem C07_overlay_write_refuted : forall old text tail,
+  old = firstn (List.length text) old ++ tail -> (List.length text <= List.length old)%nat ->
+  read_file (run_writes Overlay [(0%nat, old); (0%nat, text)] fs0) 0%nat = Some (text ++ tail).
+Proof. exact overlay_keeps_tail. Qed.
+Print Assumptions C07_overlay_write_refuted.
+
 (** Non-vacuity: a value with a negative fraction, an exponent with "+", an
     integer above 2^63, keyword and non-identifier keys, escapes and nesting. *)
 Definition ex_print (r : N) : bool := negb ((r <? 32) || (r =? 127)).
@@ -196,3 +233,16 @@ Example C07_exponent_plus : (* "1e+06" used to be three tokens *)
   jsonx_raw_tokens [49; 101; 43; 48; 54; 10]
   = Ok [(mkTok TFloat [49; 101; 43; 48; 54], []); (mkTok TEndl [10], [])].
 Proof. vm_compute. reflexivity. Qed.
+
+(** [1] printed, then 7 printed over it without truncation: the file is
+    "7", a line end, and the old tail; Unmarshal reports the trailing content. *)
+Example C07_overlay_example :
+  let old := print_doc ex_print (PArr [PNum [49]]) in
+  let new := print_doc ex_print (PNum [55]) in
+  read_file (run_writes Overlay [(0%nat, old); (0%nat, new)] fs0) 0%nat
+    = Some [55; 10; 32; 32; 32; 32; 49; 44; 10; 93; 10] /\
+  unmarshal ex_pf (fun t => t) [55; 10; 32; 32; 32; 32; 49; 44; 10; 93; 10] = Ok UMore /\
+  read_file (run_writes Replace [(0%nat, old); (0%nat, new)] fs0) 0%nat = Some [55; 10] /\
+  unmarshal ex_pf (fun t => t) [55; 10] = Ok (UOk [55]).
+Proof. vm_compute. repeat split. Qed.
+
